@@ -371,6 +371,29 @@ func genRetransmit(g *gen, repo string) {
 			deferClose = true
 		}
 	}
+	// doInternal: the token handler (the func literal handed to tokenHandlerContainer.LoadOrStore) removes the pending
+	// entry of its own request by MID and calls its handler (wakes the writer) before handing the response over.
+	di := funcDecl(f, "Conn", "doInternal")
+	respWakes := false
+	for _, c := range drCallsIn(di, "cc.tokenHandlerContainer.LoadOrStore") {
+		if len(c.Args) != 2 {
+			fail("doInternal: tokenHandlerContainer.LoadOrStore arity")
+		}
+		fl, ok := c.Args[1].(*ast.FuncLit)
+		if !ok {
+			fail("doInternal: token handler is not a function literal")
+		}
+		removes := false
+		for _, d := range drCallsIn(fl, "cc.midHandlerContainer.LoadAndDelete") {
+			if len(d.Args) == 1 && drDotted(d.Args[0]) == "req.MessageID()" {
+				removes = true
+			}
+		}
+		respWakes = removes && len(drCallsIn(fl, "elem.handler")) == 1
+		if removes != respWakes {
+			fail("doInternal: token handler removes the pending entry without waking the writer")
+		}
+	}
 	cfg := udpclient.DefaultConfig
 	var b strings.Builder
 	b.WriteString("namespace CoapVerif.Generated.Retransmit\n\n")
@@ -382,6 +405,7 @@ func genRetransmit(g *gen, repo string) {
 	fmt.Fprintf(&b, "/-- checkMidHandlerContainer tests expiry (delete, no write) before the retransmit decision (AST) -/\ndef expiryBeforeRetransmit : Bool := %s\n", drLeanBool(expFirst))
 	fmt.Fprintf(&b, "/-- handleSpecialMessages removes the pending entry keyed by the received message's MID (AST) -/\ndef recvRemovesByMID : Bool := %s\n", drLeanBool(ackRemoves))
 	fmt.Fprintf(&b, "/-- prepareWriteMessage stores a clone and registers the removal by MID that writeMessage defers (AST) -/\ndef storesClone : Bool := %s\ndef deferredRemovalByMID : Bool := %s\n", drLeanBool(storesClone), drLeanBool(deferredRemoval && deferClose))
+	fmt.Fprintf(&b, "/-- doInternal: a response reaching the token handler removes the request's pending entry and wakes the writer (RFC 7252 5.2.2) (AST) -/\ndef responseWakesWriter : Bool := %s\n", drLeanBool(respWakes))
 	b.WriteString("\nend CoapVerif.Generated.Retransmit\n")
 	g.write("Retransmit.lean", b.String())
 }
